@@ -124,6 +124,7 @@ func registerModels(e *engine) {
 	registerBytealg(e)
 	registerHash(e)
 	registerCodecs(e)
+	registerJSON(e)
 	registerMisc(e)
 }
 
